@@ -28,8 +28,8 @@ CLAUSES = {
     "C05": ("c05_details", "c05_bytes", "c05_handlers"),
 }
 MC_CFGS = {
-    "quick": (("rt_mc1.cfg", False), ("rt_coded.cfg", True)),
-    "thorough": (("rt_mc1.cfg", False), ("rt_mc_t.cfg", False), ("rt_coded.cfg", True)),
+    "quick": (("rt_mc1.cfg", False), ("rt_mc_x.cfg", False), ("rt_coded.cfg", True)),
+    "thorough": (("rt_mc1.cfg", False), ("rt_mc_x.cfg", False), ("rt_mc_t.cfg", False), ("rt_coded.cfg", True)),
 }
 UNITS = ["setUp", "body", "tearDown", "c1", "c2", "c3"]
 BASES = ["traceback", "Failed expectation", "foo", "fxd", "diff", "reason"]
